@@ -143,7 +143,9 @@ def verify_many(items, timeout_s=30, known_open=None):
     for o in allobls:
         o.name = o.uid
     orig = {o.uid: nm for o, nm in saved}
-    res = {r['name']: r for r in solve.discharge(allobls, timeout_s=timeout_s, no_escalate=(lambda uid: known_open(orig[uid])) if known_open else None)}
+    specs = {key: getattr(c, 'inputs', None) for key, c, _, _ in items}
+    res = {r['name']: r for r in solve.discharge(allobls, timeout_s=timeout_s, no_escalate=(lambda uid: known_open(orig[uid])) if known_open else None,
+                                                 model_spec=lambda uid: specs.get(uid.split('@@')[0]))}
     for o, nm in saved:
         o.name = nm
     for key, (eng, obls, info, gsec) in gen.items():
